@@ -187,42 +187,34 @@ Proof.
   intros l HF HE. apply Exists_exists in HE. destruct HE as (x & Hin & Hq). rewrite Forall_forall in HF. exists x. split; [apply HF; exact Hin|exact Hq].
 Qed.
 
-(* the rollback step of a sparse-saving session delivers what the rest of advance_rollback_frame needs *)
-Lemma sparse_rollback : forall p gs g w d o cf,
+(* the optional rollback at the start of handle_rollback_and_save, sparse saving: load the saved frame and
+   re-simulate; the facts about the state in between (needed again by the forced save that follows) *)
+Lemma sparse_first_progress : forall p gs g w d o cf,
   QSg true w d p gs -> JS w p g -> SX p gs -> 0 <= s_last_saved (ps_sync p) ->
-  confirmed_frame p = Ok cf -> s_last_confirmed (ps_sync p) <= cf ->
-  Forall (fun c => cs_last c < I32MAX) (ps_status p) ->
-  exists p1 o1, HRpost predict p gs cf o p1 o1 /\
-    0 <= s_last_saved (ps_sync p1) <= s_current (ps_sync p) /\ s_last_saved (ps_sync p1) <= Z.max 0 cf.
+  s_last_confirmed (ps_sync p) <= cf -> s_last_saved (ps_sync p) <= Z.max 0 cf ->
+  exists p2 o2,
+     (if check_simulation_consistency (ps_sync p) (ps_disc_frame p) =? NULL then Ok (p, o)
+      else res_bind (adjust_gamestate predict p (check_simulation_consistency (ps_sync p) (ps_disc_frame p)) cf o)
+             (fun '(p1, o1) => Ok (with_disc_frame p1 NULL, o1))) = Ok (p2, o2) /\
+     p2 = with_sync p (ps_sync p2) /\
+     QsI (s_current (ps_sync p)) (s_last_confirmed (ps_sync p)) (s_queues (ps_sync p2)) gs /\ all_clean (s_queues (ps_sync p2)) /\
+     same_user (s_queues (ps_sync p)) (s_queues (ps_sync p2)) /\
+     s_last_confirmed (ps_sync p2) = s_last_confirmed (ps_sync p) /\ s_current (ps_sync p2) = s_current (ps_sync p) /\ ps_status p2 = ps_status p /\
+     (forall h q gh q', nth_error (s_queues (ps_sync p)) h = Some q -> nth_error gs h = Some gh ->
+        nth_error (s_queues (ps_sync p2)) h = Some q' -> s_current (ps_sync p) <= hlen (fst gh) ->
+        pi_frame (q_pred q) = NULL -> pi_frame (q_pred q') = NULL) /\
+     s_last_confirmed (ps_sync p) <= s_last_saved (ps_sync p2) /\ 0 <= s_last_saved (ps_sync p2) <= s_current (ps_sync p) /\
+     s_last_saved (ps_sync p2) <= Z.max 0 cf /\
+     exists g2, gframe g2 = s_current (ps_sync p) /\ SparseCells w (ps_sync p2) g2.
 Proof.
-  intros p gs g w d o cf HQS HJS [X1 X2 X3 X4 X5] HS0 Ecf HLcf Hbnd.
+  intros p gs g w d o cf HQS HJS [X1 X2 X3 X4 X5] HS0 HLcf HScf.
   pose proof HQS as [Hw Hd Hmode Hn Hconn Hgos HQ Hlast Hfr Hkinds Hpe Hsok].
   destruct Hw as (Hw1 & Hw2 & Hw3). destruct Hmode as (Hrun & Hsp & Hdf).
   destruct Hn as (Hn1 & Hn2 & Hn3 & Hn4). destruct Hfr as (HfL & Hfc & Hfw).
   destruct HJS as [Jw Jmp Jsp Jfr Jcur Jcells].
   set (c := s_current (ps_sync p)) in *. set (L := s_last_confirmed (ps_sync p)) in *. set (S := s_last_saved (ps_sync p)) in *.
   pose proof (QsI_length _ _ _ _ HQ) as Hlq.
-  assert (HScf : S <= Z.max 0 cf).
-  { destruct (confirmed_frame_spec p Hconn) as (cf' & Ecf' & _ & Hex); [|exact Hbnd|].
-    { intro E. rewrite E in Hn4. cbn in Hn4. lia. }
-    rewrite Ecf in Ecf'. injection Ecf' as <-.
-    pose proof (cf_is_held _ _ _ Hlast Hex) as Hex2.
-    destruct (Forall_Exists_both _ _ _ X4 Hex2) as (g0 & G1 & G2). lia. }
-  (* the optional rollback *)
-  assert (Hfirst : exists p2 o2,
-     (if check_simulation_consistency (ps_sync p) (ps_disc_frame p) =? NULL then Ok (p, o)
-      else res_bind (adjust_gamestate predict p (check_simulation_consistency (ps_sync p) (ps_disc_frame p)) cf o)
-             (fun '(p1, o1) => Ok (with_disc_frame p1 NULL, o1))) = Ok (p2, o2) /\
-     p2 = with_sync p (ps_sync p2) /\
-     QsI c L (s_queues (ps_sync p2)) gs /\ all_clean (s_queues (ps_sync p2)) /\
-     same_user (s_queues (ps_sync p)) (s_queues (ps_sync p2)) /\
-     s_last_confirmed (ps_sync p2) = L /\ s_current (ps_sync p2) = c /\ ps_status p2 = ps_status p /\
-     (forall h q gh q', nth_error (s_queues (ps_sync p)) h = Some q -> nth_error gs h = Some gh ->
-        nth_error (s_queues (ps_sync p2)) h = Some q' -> c <= hlen (fst gh) ->
-        pi_frame (q_pred q) = NULL -> pi_frame (q_pred q') = NULL) /\
-     L <= s_last_saved (ps_sync p2) /\ 0 <= s_last_saved (ps_sync p2) <= c /\ s_last_saved (ps_sync p2) <= Z.max 0 cf /\
-     exists g2, gframe g2 = c /\ SparseCells w (ps_sync p2) g2).
-  { unfold check_simulation_consistency. rewrite Hdf.
+  unfold check_simulation_consistency. rewrite Hdf.
     pose proof (csc_spec predict (s_queues (ps_sync p)) gs _ _ NULL HQ (or_introl eq_refl)) as Hcsc. cbv zeta in Hcsc.
     pose proof (csc_in (s_queues (ps_sync p)) NULL) as Hin. cbv zeta in Hin.
     set (fi := fold_left _ _ NULL) in *.
@@ -249,7 +241,33 @@ Proof.
       split; [exact A4|]. split; [exact A6|]. split; [exact A5|].
       split; [intros h q gh q' _ B C D _; exact (A7 h gh q' B C D)|].
       rewrite A8. split; [|split; [|split; [|exists g2; split; [exact G5|exact G7]]]];
-        destruct ((S <=? cf) && (cf <? c)) eqn:Eb; try (apply andb_true_iff in Eb); lia. }
+        destruct ((S <=? cf) && (cf <? c)) eqn:Eb; try (apply andb_true_iff in Eb); lia.
+Qed.
+
+(* the rollback step of a sparse-saving session delivers what the rest of advance_rollback_frame needs *)
+Lemma sparse_rollback : forall p gs g w d o cf,
+  QSg true w d p gs -> JS w p g -> SX p gs -> 0 <= s_last_saved (ps_sync p) ->
+  confirmed_frame p = Ok cf -> s_last_confirmed (ps_sync p) <= cf ->
+  Forall (fun c => cs_last c < I32MAX) (ps_status p) ->
+  exists p1 o1, HRpost predict p gs cf o p1 o1 /\
+    0 <= s_last_saved (ps_sync p1) <= s_current (ps_sync p) /\ s_last_saved (ps_sync p1) <= Z.max 0 cf.
+Proof.
+  intros p gs g w d o cf HQS HJS [X1 X2 X3 X4 X5] HS0 Ecf HLcf Hbnd.
+  pose proof HQS as [Hw Hd Hmode Hn Hconn Hgos HQ Hlast Hfr Hkinds Hpe Hsok].
+  destruct Hw as (Hw1 & Hw2 & Hw3). destruct Hmode as (Hrun & Hsp & Hdf).
+  destruct Hn as (Hn1 & Hn2 & Hn3 & Hn4). destruct Hfr as (HfL & Hfc & Hfw).
+  destruct HJS as [Jw Jmp Jsp Jfr Jcur Jcells].
+  set (c := s_current (ps_sync p)) in *. set (L := s_last_confirmed (ps_sync p)) in *. set (S := s_last_saved (ps_sync p)) in *.
+  pose proof (QsI_length _ _ _ _ HQ) as Hlq.
+  assert (HScf : S <= Z.max 0 cf).
+  { destruct (confirmed_frame_spec p Hconn) as (cf' & Ecf' & _ & Hex); [|exact Hbnd|].
+    { intro E. rewrite E in Hn4. cbn in Hn4. lia. }
+    rewrite Ecf in Ecf'. injection Ecf' as <-.
+    pose proof (cf_is_held _ _ _ Hlast Hex) as Hex2.
+    destruct (Forall_Exists_both _ _ _ X4 Hex2) as (g0 & G1 & G2). lia. }
+  (* the optional rollback *)
+  pose proof (sparse_first_progress p gs g w d o cf HQS (Build_JS _ _ _ Jw Jmp Jsp Jfr Jcur Jcells) (Build_SX _ _ X1 X2 X3 X4 X5) HS0 HLcf HScf) as Hfirst.
+  fold c L S in Hfirst.
   destruct Hfirst as (p2 & o2 & E2 & Hshape2 & HQ2 & Hcl2 & Hsu2 & HL2 & Hc2 & Hst2 & Hidle2 & HLS2 & HS2 & HScf2 & g2 & Hgf2 & Hcells2).
   assert (Hsp2 : ps_sparse p2 = true) by (rewrite Hshape2; cbn; exact Hsp).
   assert (Hmpp2 : ps_maxpred p2 = w) by (rewrite Hshape2; cbn; exact Hw2).
